@@ -9,8 +9,6 @@ integers obtained by cross-multiplication; `leS_iff` / `ltS_iff` turn the result
 rationals `a·2^x·10^y`.
 -/
 namespace Sonic.Proofs.Ftoa
-set_option profiler true
-set_option profiler.threshold 1000
 open Sonic.Gen Sonic.Model.Ftoa
 
 /-! ## (a) every row of `pow10CeilSig` -/
@@ -126,14 +124,31 @@ theorem expOkB_sound (q : Int) (irr : Bool) (h : expOkB q irr = true) : ExpOk q 
     simp only [hrow, Bool.and_eq_true, decide_eq_true_eq] at h
     exact ⟨row, hrow, h.1.1.1.1.1, h.1.1.1.1.2, h.1.1.1.2, h.1.1.2, h.1.2, h.2⟩
 
-theorem exp_checked :
-    (List.range 2046).all (fun i => decide (expOkB ((i : Int) + (-1074)) false = true ∧
-      expOkB ((i : Int) + (-1074)) true = true)) = true := by
+/-- both flags at exponent `q` -/
+def ExpBoth (q : Int) : Prop := expOkB q false = true ∧ expOkB q true = true
+instance (q : Int) : Decidable (ExpBoth q) := by unfold ExpBoth; infer_instance
+
+-- the 2046 exponents in four chunks (each a few seconds of kernel time)
+theorem exp_checked1 : (List.range 512).all (fun i => decide (ExpBoth ((i : Int) + (-1074)))) = true := by
+  decide +kernel
+theorem exp_checked2 : (List.range 512).all (fun i => decide (ExpBoth ((i : Int) + (-562)))) = true := by
+  decide +kernel
+theorem exp_checked3 : (List.range 512).all (fun i => decide (ExpBoth ((i : Int) + (-50)))) = true := by
+  decide +kernel
+theorem exp_checked4 : (List.range 510).all (fun i => decide (ExpBoth ((i : Int) + 462))) = true := by
   decide +kernel
 
+theorem exp_both (q : Int) (h1 : -1074 ≤ q) (h2 : q ≤ 971) : ExpBoth q := by
+  by_cases c1 : q < -562
+  · exact int_range_of_all ExpBoth (-1074) 512 exp_checked1 q h1 (by omega)
+  by_cases c2 : q < -50
+  · exact int_range_of_all ExpBoth (-562) 512 exp_checked2 q (by omega) (by omega)
+  by_cases c3 : q < 462
+  · exact int_range_of_all ExpBoth (-50) 512 exp_checked3 q (by omega) (by omega)
+  · exact int_range_of_all ExpBoth 462 510 exp_checked4 q (by omega) (by omega)
+
 theorem exp_ok (q : Int) (h1 : -1074 ≤ q) (h2 : q ≤ 971) (irr : Bool) : ExpOk q irr := by
-  have := int_range_of_all (fun q => expOkB q false = true ∧ expOkB q true = true) (-1074) 2046
-    exp_checked q h1 (by omega)
+  have := exp_both q h1 h2
   cases irr
   · exact expOkB_sound _ _ this.1
   · exact expOkB_sound _ _ this.2
